@@ -264,7 +264,6 @@ pub fn step_dddmp(s: &mut Mach, ins: &Instr, model: &mut Model, ctx: &mut RunCtx
         }
     }
     let file = w.platter;
-    ctx.obs.u64(file.len() as u64);
 
     // ---- import into the same manager ------------------------------------------
     let rplan = if !faulty {
